@@ -67,4 +67,17 @@ theorem slice_sites_as_modelled :
        ["hayStack == \"\" || pinCushion == \"\"", "len(hayStack) < len(pinCushion)"]] := by
   constructor <;> decide
 
+/-! ## numbers with huge exponents are refused where numbers are read with an exponent -/
+
+/-- **An accepted number's exponent is at most 10000 in magnitude (JSON) / 1000 (contact queries)**, for every way of writing it -/
+theorem accepted_exponents_bounded (fractionDigits : Nat) (e : Int) :
+    (jsonNumberOk fractionDigits e = true → (decimalExponent fractionDigits e).natAbs ≤ 10000) ∧
+    (queryNumberOk fractionDigits e = true → (decimalExponent fractionDigits e).natAbs ≤ 1000) := by
+  simp only [jsonNumberOk, queryNumberOk, decide_eq_true_eq]
+  constructor <;> intro h <;> omega
+
+/-- the numbers of the repaired findings F-C04-g and F-C15-c are refused, ordinary ones written with an exponent are not -/
+example : jsonNumberOk 0 30000000 = false ∧ queryNumberOk 0 999999999 = false ∧ queryNumberOk 0 (-30000000) = false ∧
+    jsonNumberOk 1 400 = true ∧ queryNumberOk 2 5 = true ∧ queryNumberOk 1 1001 = true ∧ queryNumberOk 0 1001 = false := by decide
+
 end GoflowModel.Props.C04Slices
